@@ -67,6 +67,7 @@ type Result struct {
 	Unsim      []string // unsimulated socket calls found ("file:line: pkg.Func")
 	Selects    int
 	SyncReturn []string // return statements that contain a blocking operation (no after-sync possible)
+	Sites      []string // every Step site ("pkg/file.go:line"), the denominator of the statement-reach measure
 }
 
 type inst struct {
@@ -359,6 +360,7 @@ func isPanicCall(s ast.Stmt) bool {
 func (in *inst) step(p token.Pos) {
 	in.insert(in.off(p), fmt.Sprintf("simrt.Step(%q);", in.site(p)))
 	in.res.Steps++
+	in.res.Sites = append(in.res.Sites, in.site(p))
 }
 func (in *inst) syncBefore(p token.Pos) {
 	in.insert(in.off(p), fmt.Sprintf("simrt.Sync(%q);", in.site(p)))
